@@ -107,20 +107,22 @@ def replay_swap(states, owner):
         prices = pd.Series({toks[t].name: dec(v) for t, v in px.items()})
         before = {t: frac(b.get_token_balance(toks[t])) for t in toks}
         n0 = len(acts)
+        # the API takes `Decimal | float`: every other swap hands its amount over as a float when the amount is one exactly
+        arg = float(a) if (i % 2 == 1 and ev["op"] in ("swapf", "swapt") and Fraction(float(a)) == frac(a)) else a
         try:
             if ev["op"] == "add":
                 b.add_to_balance(toks[ev["t"]], a)
             elif ev["op"] == "sub":
                 b.subtract_from_balance(toks[ev["t"]], a)
             elif ev["op"] == "swapf":
-                b.swap_by_from(toks[ev["t"]], toks[ev["to"]], a, prices, dec(ev["fee"]))
+                b.swap_by_from(toks[ev["t"]], toks[ev["to"]], arg, prices, dec(ev["fee"]))
             else:
-                b.swap_by_to(toks[ev["t"]], toks[ev["to"]], a, prices, dec(ev["fee"]))
+                b.swap_by_to(toks[ev["t"]], toks[ev["to"]], arg, prices, dec(ev["fee"]))
             got = "ok"
         except Exception as e:
             got = "reject"
         after = {t: frac(b.get_token_balance(toks[t])) for t in toks}
-        hist.append(f"{ev['op']}({ev['t']}->{ev['to']}, {a}, px{ev['px']}, fee {ev['fee']})->{got}")
+        hist.append(f"{ev['op']}({ev['t']}->{ev['to']}, {a}{' as float' if isinstance(arg, float) else ''}, px{ev['px']}, fee {ev['fee']})->{got}")
         rep = {"kind": "wallet_swap_path", "owner": owner, "w0": {t: str(v) for t, v in w0.items()},
                "events": [{**{k: x["last"]["ev"][k] for k in ("op", "t", "to", "px")}, "a": str(x["last"]["ev"]["a"]), "fee": str(x["last"]["ev"]["fee"])}
                           for x in states[1:i + 2]]}
